@@ -429,8 +429,20 @@ func decideOnce(c *Ctx, h *ssa.Function, site ssa.Instruction, k string) {
 				continue
 			}
 			if !onlyErrorsFrom(c, g, b.Succs[rejectSucc]) {
-				detail = "the signer-already-decided branch does not lead to an error"
-				continue
+				// ... or to a verdict on which the handler gives up: from that branch the recording step is out of reach
+				rb := b.Succs[rejectSucc]
+				from := ir.FPos{Ctx: ctx, In: iff}
+				reach := w.FlatReaches(root, &from, &ir.FlatCut{Edges: func(fc *ir.FCtx) map[[2]int]bool {
+					if fc == ctx {
+						return map[[2]int]bool{{b.Index, 1 - rejectSucc}: true}
+					}
+					return nil
+				}}, func(p ir.FPos) bool { return p.Ctx == root && p.In == site })
+				_ = rb
+				if reach != nil {
+					detail = "the signer-already-decided branch does not lead to an error"
+					continue
+				}
 			}
 			hdr := ir.EnclosingLoopHeader(g, iff)
 			if hdr == nil {
@@ -547,10 +559,27 @@ func statusTypestate(c *Ctx) {
 		// assignment must stand under the guards of its transition
 		if alts := status.Alts(); len(alts) > 1 {
 			allConst := true
-			for _, a := range alts {
-				if a.Op != "const" {
-					allConst = false
+			// (an alternative that is the loaded order's own status — the arm of a verdict switch that assigns nothing —
+			// keeps the status, which any writer may do; the constants are the transitions to judge)
+			var consts []*ir.Expr
+			ownKey := ""
+			if idv := fieldOfStruct(st, "Id"); idv != nil {
+				if k, ok := allStateField(c, idv, secPO, "Id"); ok {
+					ownKey = k.String()
 				}
+			}
+			for _, a := range alts {
+				if a.Op == "const" {
+					consts = append(consts, a)
+					continue
+				}
+				if k, ok := allStateField(c, a, secPO, "Status"); ok && ownKey != "" && k.String() == ownKey {
+					continue
+				}
+				allConst = false
+			}
+			if allConst && len(consts) > 0 {
+				alts = consts
 			}
 			var split []poWriter
 			if allConst {
@@ -1054,11 +1083,23 @@ func queueMembership(c *Ctx) {
 			e := w.ExprOf(v)
 			return e.Op == "const" && e.Name == q.status
 		}
-		gives := func(_ *ir.FCtx, in ssa.Instruction) bool {
+		gives := func(cx *ir.FCtx, in ssa.Instruction) bool {
 			switch x := in.(type) {
 			case *ssa.Store:
 				fa, ok := x.Addr.(*ssa.FieldAddr)
-				return ok && fieldAddrName(fa) == "Status" && isStatusConst(x.Val)
+				if !ok || fieldAddrName(fa) != "Status" {
+					return false
+				}
+				if isStatusConst(x.Val) {
+					return true
+				}
+				// a helper that is handed the status to record (`closeDecision(&po, types.StatusAccepted, now)`)
+				if p, isParam := x.Val.(*ssa.Parameter); isParam && cx != nil {
+					if arg := cx.ArgValue(p); arg != nil && isStatusConst(arg) {
+						return true
+					}
+				}
+				return false
 			case *ssa.Return:
 				for _, rv := range x.Results {
 					if isStatusConst(rv) {
